@@ -18,7 +18,7 @@ from sim.fingerprint import obs_equal
 from sim.world import Session, classify, exc_detail, exc_signature, reference_world
 
 PROPERTY = "C19"
-SESSIONS = {"quick": 160, "thorough": 4000}
+SESSIONS = {"quick": 160, "thorough": 150}
 BUDGET_S = {"quick": 110, "thorough": 1500}
 CAP_S = {"quick": 240, "thorough": 480}
 RULE = ("one session = one generated recipe (biased to projection-over-assign, projections into sources, drop_duplicates subsets, filters over "
